@@ -1099,10 +1099,10 @@ func (c *FuncCtx) evalArgs(st *State, sig *types.Signature, x *ast.CallExpr) []*
 			es := c.eng.sortOf(vt.Elem())
 			arr := fmt.Sprintf("((as const (Array Int %s)) %s)", es, c.eng.zeroOfSort(es, vt.Elem()))
 			k := 0
-			c.lastVariadic = nil
+			var vraw []*Val
 			for _, a := range x.Args[n-1:] {
 				raw := c.eval(st, a)
-				c.lastVariadic = append(c.lastVariadic, raw)
+				vraw = append(vraw, raw)
 				v := c.coerce(st, raw, vt.Elem())
 				arr = mkStore(arr, mkInt(int64(k)), v.S)
 				k++
@@ -1112,6 +1112,7 @@ func (c *FuncCtx) evalArgs(st *State, sig *types.Signature, x *ast.CallExpr) []*
 				nilv = tTrue
 			}
 			args = append(args, &Val{T: vt, S: app("mk_"+srt, arr, "0", mkInt(int64(k)), nilv), Sort: srt})
+			c.lastVariadic = vraw
 		}
 		return args
 	}
@@ -1355,7 +1356,7 @@ func (c *FuncCtx) applyContract(st *State, con *Contract, sig *types.Signature, 
 	}
 	for _, cl := range con.clauses("ensures") {
 		v := c.eval(st, cl.Expr)
-		st.assume(v.S)
+		st.assume(c.skolemize(v.S))
 	}
 	if len(con.clauses("like")) > 0 {
 		env := map[string]*Val{}
